@@ -7,11 +7,13 @@ One JSON object per input line: {"op": "...", ...}; one JSON line per answer:
 import DriverLib.Basic
 import DriverLib.C01
 import DriverLib.C12
+import DriverLib.C07
 open Lean Drv
 
 def handlers : List (String → Json → Option (R Json)) := [
   Drv.C01.handle,
   Drv.C12.handle,
+  Drv.C07.handle,
   fun _ _ => none]
 
 def dispatch (line : String) : Json :=
